@@ -240,12 +240,12 @@ Qed.
 
 (** ** main statements *)
 
-Definition admitted_sound (g : config -> sub -> bool) : Prop :=
+Definition accepted_sound (g : config -> sub -> bool) : Prop :=
   forall c p s p', cfg_ok c -> pipeline c p (STx s) = (R_OK, p') -> g c s = true -> acceptable c p s = true.
 
 Definition all_guards (c : config) (s : sub) : bool := g_fwd s && g_wrap s && g_fee c s && g_hdr s.
 
-Lemma admitted_partial : admitted_sound all_guards.
+Lemma accepted_partial : accepted_sound all_guards.
 Proof.
   intros c p s p' Hc H G. unfold all_guards in G.
   apply andb_true_iff in G as [G Gh]. apply andb_true_iff in G as [G Gf].
@@ -286,7 +286,7 @@ Proof.
   inversion H. reflexivity.
 Qed.
 
-Lemma admitted_appends : forall c p m p', pipeline c p m = (R_OK, p') ->
+Lemma accepted_appends : forall c p m p', pipeline c p m = (R_OK, p') ->
   exists s, m = STx s /\ p' = p ++ [s_outer s] /\ c_synced c = true
             /\ count_sender p (t_sender (s_outer s)) < c_persender c /\ pool_size p < c_cap c.
 Proof.
